@@ -168,6 +168,20 @@ func (p *Peer) SealBadPadding(typ byte, frag []byte, mut func(pad []byte)) []byt
 	return r
 }
 
+// SealRawCBC builds a CBC record for the NEXT sequence number whose decrypted content is exactly pt (whole blocks:
+// no MAC, no padding added), as someone who holds the write key can; the sequence number is not consumed.  With an
+// AEAD or without keys it is an ordinary record carrying pt.
+func (p *Peer) SealRawCBC(typ byte, pt []byte) []byte {
+	if p.wr == nil || p.wr.gcm || !p.wr.on || len(pt) == 0 || len(pt)%16 != 0 {
+		return p.record(typ, pt)
+	}
+	p.wr.rawPT = pt
+	r := p.record(typ, nil)
+	p.wr.rawPT = nil
+	p.wseq--
+	return r
+}
+
 // SendRaw sends bytes as they are.
 func (p *Peer) SendRaw(b []byte) error { return p.L.Send(b) }
 
